@@ -97,7 +97,9 @@ func notNeeded(date string, todo work) bool {
 	}
 	// maybe the report is already in todo.readyfiles
 	for _, f := range todo.readyfiles {
-		if strings.Contains(f, date) {
+		// Compare the report's own name, not the whole path: the telemetry
+		// directory's path may contain the date, too.
+		if filepath.Base(f) == date+".json" {
 			return true
 		}
 	}
